@@ -23,6 +23,8 @@ sub!(wire, "wire.rs");
 sub!(gen, "gen.rs");
 sub!(c05, "c05.rs");
 sub!(core, "core.rs");
+sub!(update, "update.rs");
+sub!(updrun, "updrun.rs");
 
 /// SplitMix64: every random choice of a run derives from one state.
 pub struct Rng(pub u64);
@@ -298,6 +300,7 @@ fn run() {
     match prop.as_str() {
         "C05" => c05::run(&mut report, replay.as_deref()),
         "C01" | "C02" | "C03" | "C04" | "C06" | "C12" => core::run(&mut report, replay.as_deref()),
+        "C09" | "C10" | "C11" | "C13" => updrun::run(&mut report, replay.as_deref()),
         other => panic!("no runner for property {other}"),
     }
     report.write();
